@@ -659,8 +659,8 @@ def render(p, alt):
 # random abstract trees
 # ---------------------------------------------------------------------------
 
-TEXT_POOL = "abcxyzABC019 _-.$@\"\\'/*?[](){}\t\n\r\b\f\v\a\x01\x1f\x7fé\u00a0\u200bλ中\ufeff\ufffd😀𝒜\U000e0001\U0010ffff\u2028\u0085\U000fd800\U0010dc00\U000edfff\U0001d7ff\U0002e000"
-REGEX_OK = ["^a", "a.*b", "[a-z]+", "(ab|cd)*", "\\d+", "a{2,3}", "^$", "", "x", "(?i)a", "a\\.b", "é+", "[^\\n]", "\\s", "a|b",
+TEXT_POOL = "abcxyzABC019 _-.$@\"\\'/*?[](){}%!#&+,:;<=>^`|~\t\n\r\b\f\v\a\x01\x1f\x7fé\u00a0\u200bλ中\ufeff\ufffd😀𝒜\U000e0001\U0010ffff\u2028\u0085\U000fd800\U0010dc00\U000edfff\U0001d7ff\U0002e000"
+REGEX_OK = ["100%", "%d%s", "^[0-9]+%$", "%", "a%!b", "^a", "a.*b", "[a-z]+", "(ab|cd)*", "\\d+", "a{2,3}", "^$", "", "x", "(?i)a", "a\\.b", "é+", "[^\\n]", "\\s", "a|b",
             "(?s).", "[[:alpha:]]", "\\\\", "\\$", "\"q\"", "😀?"]
 
 
